@@ -18,8 +18,12 @@ Level `other`: a proved kernel + correspondence + differential exploration.
   CASM, statement annotations, function debug info, type names, the ProgramArtifact JSON with `executables`,
   every executable's compiled output, the TestCompilation metadata, ABI / entry points / contract class /
   CASM class with hints.  A difference that is exactly the known finding `scc-representative-intern-id`
-  (only members of call cycles differ, only in where the cycle's gas withdrawal sits) goes through the
-  known-findings gate; any other difference is a violation.  Thread interleavings are sampled, not
+  (only members of call cycles differ, only in where the cycle's gas withdrawal sits, AND the difference
+  vanishes when the configuration is re-run with the first free member of every call cycle interned first
+  in both runs, i.e. with the representative pinned) goes through the known-findings gate; any other
+  difference - in particular one that persists under pinning - is a violation.  Further configurations
+  pin the representatives and permute the order in which the OTHER members of dense cycles (K3, K4,
+  chords, shared node) are interned; they are compared with a pinned baseline and admit no excuse.  Thread interleavings are sampled, not
   enumerated, and are not modelled in Coq."""
 import json
 import os
